@@ -3,6 +3,7 @@ package props
 import (
 	"encoding/json"
 	"fmt"
+	"regexp"
 	"sort"
 	"strings"
 
@@ -110,6 +111,9 @@ func checkMixin(id string, c *gen.MixinCase) Outcome {
 	got := oracle.NormTop(Obj(Parse([]byte(resp.After))))
 	want = oracle.NormTop(want)
 	if id == "C17" {
+		// which <N> a colliding operation id receives is C18's business ("by appending 'Mixin<N>'"), and N is not
+		// specified: ids renamed by the model are compared up to N
+		alignRenamedIDs(got, want)
 		if !Equal(J(got), J(want)) {
 			out.NT = true
 			out.Fail = fmt.Sprintf("merged document differs from the documented merge rules:\n  got : %s\n  want: %s%s", Trunc(string(Marshal(got)), 2500), Trunc(string(Marshal(want)), 2500), dump())
@@ -161,12 +165,11 @@ func checkMixin(id string, c *gen.MixinCase) Outcome {
 				}
 				orig := Str(op["operationId"])
 				merged := Str(Obj(Obj(gotPaths[p])[meth])["operationId"])
-				renamed := fmt.Sprintf("%sMixin%d", orig, i)
 				switch {
 				case orig == "" && merged != "":
 					out.Fail = fmt.Sprintf("operation %s %s of mixin %d had no operationId and got %q", meth, p, i, merged)
-				case orig != "" && present[orig] && merged != renamed:
-					out.Fail = fmt.Sprintf("operation %s %s of mixin %d: id %q collides with an earlier one and should become %q, got %q", meth, p, i, orig, renamed, merged)
+				case orig != "" && present[orig] && !isMixinRename(orig, merged):
+					out.Fail = fmt.Sprintf("operation %s %s of mixin %d: id %q collides with an earlier one and should become %q, got %q", meth, p, i, orig, orig+"Mixin<N>", merged)
 				case orig != "" && !present[orig] && merged != orig:
 					out.Fail = fmt.Sprintf("operation %s %s of mixin %d: id %q does not collide but was changed to %q", meth, p, i, orig, merged)
 				}
@@ -182,6 +185,34 @@ func checkMixin(id string, c *gen.MixinCase) Outcome {
 		}
 	}
 	return out
+}
+
+var mixinSuffix = regexp.MustCompile(`^Mixin[0-9]+$`)
+
+// isMixinRename: merged is orig + "Mixin<N>" for some number N (the property does not say which).
+func isMixinRename(orig, merged string) bool {
+	return strings.HasPrefix(merged, orig) && mixinSuffix.MatchString(strings.TrimPrefix(merged, orig))
+}
+
+// alignRenamedIDs rewrites, in got, every operation id which differs from the model's only by the number N of
+// its "Mixin<N>" suffix to the model's id.
+func alignRenamedIDs(got, want O) {
+	base := regexp.MustCompile(`^(.*)Mixin[0-9]+$`)
+	for p, wi := range Obj(want["paths"]) {
+		for _, meth := range oracle.Methods {
+			wop, gop := Obj(Obj(wi)[meth]), Obj(Obj(Obj(got["paths"])[p])[meth])
+			if wop == nil || gop == nil {
+				continue
+			}
+			w, g := Str(wop["operationId"]), Str(gop["operationId"])
+			if w == g {
+				continue
+			}
+			if mw, mg := base.FindStringSubmatch(w), base.FindStringSubmatch(g); mw != nil && mg != nil && mw[1] == mg[1] {
+				gop["operationId"] = w
+			}
+		}
+	}
 }
 
 func resp0(r *wproto.Response) string {
@@ -202,7 +233,7 @@ func init() {
 	})
 	register(&Prop{
 		ID:    "C18",
-		Rule:  mixinRule + "operation ids unique per document drawn from one small pool so that primary<->mixin and mixin<->mixin collisions occur under every method, plus id-less operations; non-trivial = at least one id collision; oracle = all non-empty ids of the merged document pairwise distinct, an id is renamed to <id>Mixin<i> iff it collides, id-less operations stay id-less",
+		Rule:  mixinRule + "operation ids unique per document drawn from one small pool so that primary<->mixin and mixin<->mixin collisions occur under every method, plus id-less operations; non-trivial = at least one id collision; oracle = all non-empty ids of the merged document pairwise distinct, an id is renamed to <id>Mixin<N> (any number N) iff it collides, id-less operations stay id-less",
 		Gen:   func(d *gen.D) interface{} { return gen.GenMixinCase(d, gen.MixinCfg{IDFocus: true}) },
 		New:   func() interface{} { return new(gen.MixinCase) },
 		Check: func(c interface{}) Outcome { return checkMixin("C18", c.(*gen.MixinCase)) },
